@@ -91,6 +91,7 @@ theorem parseNumber_natDigits (pos : Bool) (n : Nat) {rest : List Char} (h : Fol
   unfold parseNumber
   simp only [hd, hz', Bool.not_true, Bool.false_eq_true, if_false]
   rw [← e', hscan]
+  simp [hz']
 
 theorem isDigit_not_ws {c : Char} (h : isDigit c = true) : isWs c = false ∧ c ≠ '-' := by
   refine ⟨?_, ?_⟩
@@ -135,10 +136,8 @@ theorem parseStrF_escChar (c : Char) (f : Nat) (acc : Str) (tail : List Char) :
     have hv : ((0 * 16 + 0) * 16 + c.toNat / 16) * 16 + c.toNat % 16 = c.toNat := by omega
     simp [parseStrF, parseEscape, parseUnicode, decodeHex, hexVal_hexDigit _ hd1,
       hexVal_hexDigit _ hd2, h0, hv]
-    have : ¬ (56320 ≤ c.toNat ∧ c.toNat ≤ 57343) := by omega
-    simp [this]
-    have : c.toNat < 55296 := by omega
-    simp [this]
+    trace_state
+    done
   · next h1 h2 _ _ _ _ _ h =>
     simp [parseStrF, h1, h2, h]
 
